@@ -29,7 +29,8 @@ ASSUMPTIONS = [
 EXHAUSTIVE_PART = '2^5 report-flag subsets x 3 report-to values x 9 outcomes = 864 cells'
 
 NODE = 'dtn://me/'
-OUTCOMES = ['deliver', 'forward', 'forward-frag', 'delete', 'noroute', 'fwd-no-tx', 'sec-fail', 'fwd-cl-fails', 'fwd-frag-cl-fails']
+OUTCOMES = ['deliver', 'forward', 'forward-frag', 'delete', 'noroute', 'fwd-no-tx', 'sec-fail', 'fwd-cl-fails', 'fwd-frag-cl-fails',
+            'frag-unusable']
 RPT_TO = [['dtn', 'none'], ['dtn', '//reports/here'], ['ipn', 77, 2]]
 
 
@@ -87,6 +88,9 @@ def build(item, index):
     dest = {'deliver': ['dtn', '//me/svc'], 'forward': ['dtn', '//fwd/x'], 'forward-frag': ['dtn', '//fwd/x'],
             'delete': ['dtn', '//del/x'], 'noroute': ['dtn', '//zzz/q'], 'fwd-no-tx': ['dtn', '//lost/x'],
             'fwd-cl-fails': ['dtn', '//fwd/x'], 'fwd-frag-cl-fails': ['dtn', '//fwd/x'],
+            # a lone fragment for a local endpoint that the reassembly step cannot use (it declares 2^63 octets in all):
+            # it is received, and nothing else happens to it
+            'frag-unusable': ['dtn', '//me/svc'],
             'sec-fail': ['dtn', '//me/svc']}[outcome]
     flags = flag_bits(item['mask']) | int(item.get('other_flags', 0))
     if outcome in ('forward-frag', 'fwd-frag-cl-fails'):
@@ -114,8 +118,13 @@ def build(item, index):
     plen = int(item.get('plen', 20))
     blocks.append(dict(type=1, num=1, flags=0, crc_type=item['ycrc'], data=strat9174.content(plen, index).hex()))
     ts = [int(item['ts'][0]), (int(item['ts'][1]) + index) % 2 ** 64]
+    frag = None
+    if outcome == 'frag-unusable':
+        flags |= r.FLAG_FRAGMENT
+        flags &= ~r.FLAG_NO_FRAGMENT
+        frag = [0, 2 ** 63]
     pri = dict(version=7, flags=flags, crc_type=item['pcrc'], dest=dest, src=src, rpt=RPT_TO[item['rpt'] % 3], ts=ts,
-               lifetime=3600000, frag=None)
+               lifetime=3600000, frag=frag)
     return {'primary': pri, 'blocks': blocks}
 
 
@@ -286,7 +295,8 @@ def one(node, item, index, out, seen):
                      % (len(forwarded), body['reason'], where))
     if reports and not should and rpt_to != ['dtn', 'none'] and not asserted_all:
         out.fail('report-without-cause', 'a status report without any asserted status was emitted (%s)' % where)
-    if outcome != 'noroute':
+    if outcome not in ('noroute', 'frag-unusable'):
+        # (for those two only the stated direction is judged: nothing may be asserted that did not happen)
         missing = should - asserted_all
         if missing:
             out.fail('report-missing:%s' % ','.join(sorted(missing)), 'requested and occurred but never reported: %s (%s; %d reports)'
